@@ -346,6 +346,7 @@ type contractInfo struct {
 	formH        uint64   // height of the (last) confirmation, v1
 	windowReorgs int      // reorgs that hit the open proof window
 	resH         uint64   // height of the (last) resolution
+	revH         uint64   // height of the last revision confirmed on the best chain (0: none / disconnected)
 }
 
 type v2rev struct {
@@ -726,6 +727,11 @@ func (w *world) contractEvents(diffs []consensus.V2FileContractElementDiff, v1di
 				out = append(out, fmt.Sprintf("%d:form", i))
 			}
 			if d.Revision != nil {
+				if revert {
+					c.revH = 0
+				} else {
+					c.revH = h
+				}
 				out = append(out, fmt.Sprintf("%d:rev", i))
 			}
 			if d.Resolution != nil {
